@@ -1,0 +1,26 @@
+//go:build verif
+
+// Contracts for package estimator, used by /verif (gvc).  This file contains
+// no declarations; it is compiled only with the verif build tag.
+
+package estimator
+
+//@ -- Assumed contracts (bodies not verified here): an estimator only touches its own fields;
+//@ -- readings are arbitrary.
+//@ func (*Estimator).Estimate
+//@   trusted
+//@   why estimator.go: locks e.mu, updates e's own counters, returns e.rate, e.packetRate
+//@   requires nonnil: e != nil
+//@   modifies *e
+//@
+//@ func (*Estimator).Accumulate
+//@   trusted
+//@   why estimator.go: locks e.mu, adds to e.bytes / e.packets (saturating)
+//@   requires nonnil: e != nil
+//@   modifies *e
+//@
+//@ func (*Estimator).Totals
+//@   trusted
+//@   why estimator.go: locks e.mu, reads e's own counters
+//@   requires nonnil: e != nil
+//@   modifies *e
